@@ -48,4 +48,22 @@ theorem store_reach_tie :
 /-- every numeric argument is parsed with ParseInt(·, 10, 32) -/
 theorem parse_int_tie : Gen.Pop3.parseIntArgs = ["10,32"] := by decide
 
+/-- the accepting exit of the STLS clause: tls.Server on the session's connection, the handshake at once, the connection
+    field replaced, a NEW bufio.Reader on the wrapped connection assigned to the field lines are read from (so what the old
+    reader had buffered is gone: `Model.Pop3.sessionWire`), the *tls.ConnectionState field assigned -/
+theorem stls_switch_tie : Gen.Pop3.stlsSwitch = ["wrap", "handshake", "conn", "reader", "state"] := by decide
+
+/-- where that field lives: the variant of the source is the one the model is instantiated with (`sourceScope`).  In the
+    pinned tree it is declared in the struct the session EMBEDS — one flag for every session of the process (finding
+    F-13tls; `Props.C13Tls.stls_second_connection_fails`).  When the declaration moves into the session this obligation
+    fails until `sourceScope` is switched to `.perSession`. -/
+theorem tls_scope_tie :
+    Gen.Pop3.tlsStateScope = (match sourceScope with | .perServer => "perServer" | .perSession => "perSession") := by decide
+
+/-- the capability line STLS is sent under `tlsConfig != nil && tlsState == nil && !ForceTLS` (`Model.Pop3.offersStls`; the
+    tlsState read is the server's in the pinned source, the session's once the declaration has moved) -/
+theorem capa_stls_cond_tie :
+    Gen.Pop3.capaStlsCond = ["$r.tlsConfig != nil && $r.tlsState == nil && !$r.config.ForceTLS"] ∨
+    Gen.Pop3.capaStlsCond = ["$r.tlsConfig != nil && $s.tlsState == nil && !$r.config.ForceTLS"] := by decide
+
 end Ibx.Tie.Pop3
